@@ -72,7 +72,8 @@ def handleLine (line : String) : String :=
   | [id, thr, _, arrs] =>
     let items := arrs.splitOn ","
     let changes : List (Nat × Nat) := items.filterMap (fun s => match s.splitOn ":" with | [off, "T", ms] => some (off.toNat!, ms.toNat!) | _ => none)
-    let as := ((items.filter (fun s => match s.splitOn ":" with | [_, "T", _] => false | _ => true)).zipIdx).map (fun (s, i) => parseArr i s)
+    -- `off:T:ms` = a run-time throttle change; `off:F:ms` = a flood of filter-rejected events (they change nothing in the model's run)
+    let as := ((items.filter (fun s => match s.splitOn ":" with | [_, "T", _] => false | [_, "F", _] => false | _ => true)).zipIdx).map (fun (s, i) => parseArr i s)
     let nm (e : Ev) : String := (as[e.id]?.map (·.name)).getD "?"
     let r := sim (thrAt thr.toNat! changes) (6 * as.length + 4 * changes.length + 8) as {} {}
     -- what is printed is the run of the PROVED worker loop over the turns the scheduler produced; the scheduler's own
